@@ -5,3 +5,4 @@ import DsdVerif.Props.C13Kernel
 import DsdVerif.Props.C13More
 import DsdVerif.Props.C13Doc
 import DsdVerif.Props.C13Layout
+import DsdVerif.Props.C13Tabs
